@@ -1,3 +1,268 @@
-/- C18 — property theorems only (helper lemmas live in `Rooc/Proofs`). -/
+/-
+C18 — the compiler is total.  PROPERTY THEOREMS ONLY, about the modelled operator / cast / range core
+(`Rooc/Pre/Prim.lean`, `Rooc/Pre/Types.lean`, `Rooc/Pre/Expand.lean`; the models are diffed against the
+Rust on every run).  `OpErr.panic` marks exactly the places where the Rust would panic; the theorems
+say where it is unreachable, and exhibit the one place where it is not.
+-/
+import Rooc.Pre.Prim
+import Rooc.Pre.Types
+import Rooc.Pre.Expand
+import Rooc.Proofs.Field
+import Rooc.Proofs.Pre
 namespace Rooc.Props.C18
+set_option linter.unusedSectionVars false
+open Rooc Rooc.Pre Rooc.Proofs.Pre
+
+section generic
+variable {α : Type} [Arith α]
+
+/-! ### binary operators never panic -/
+
+private theorem checkedDiv_ne_panic (a b : α) : checkedDiv a b ≠ .error .panic := by
+  unfold checkedDiv; split <;> simp
+private theorem floatArith_ne_panic (op : BinOp) (a b : α) : floatArith op a b ≠ .error .panic := by
+  unfold floatArith; cases op <;> simp [checkedDiv_ne_panic]
+private theorem ofI64_ne_panic (r : Option Int) : (ofI64 r : Res α) ≠ .error .panic := by
+  unfold ofI64; cases r <;> simp
+private theorem ofU64_ne_panic (r : Option Nat) : (ofU64 r : Res α) ≠ .error .panic := by
+  unfold ofU64; cases r <;> simp
+
+private theorem applyBinNumber_ne_panic (x : α) (op : BinOp) (b : Prim α) : applyBinNumber x op b ≠ .error .panic := by
+  unfold applyBinNumber; cases b <;> simp [floatArith_ne_panic]
+
+/-- `apply_binary_op` is panic-free for ALL operand values of ALL kinds (every integer operation is
+`checked_*`, every division goes through `checked_div`). -/
+theorem no_panic_applyBinary (a b : Prim α) (op : BinOp) : applyBinary a op b ≠ .error .panic := by
+  cases a with
+  | number x => simpa [applyBinary] using applyBinNumber_ne_panic x op b
+  | boolean x =>
+    simp only [applyBinary, applyBinBoolean]
+    split
+    · cases b <;> cases op <;> simp
+    · exact applyBinNumber_ne_panic _ op b
+  | string s => simp only [applyBinary, applyBinString]; cases b <;> cases op <;> simp
+  | integer i =>
+    simp only [applyBinary, applyBinInteger]
+    cases b <;> cases op <;> simp [floatArith_ne_panic, ofI64_ne_panic, checkedDiv_ne_panic]
+  | pint u =>
+    simp only [applyBinary, applyBinPint]
+    cases b <;> cases op <;> simp [floatArith_ne_panic, ofI64_ne_panic, ofU64_ne_panic, checkedDiv_ne_panic]
+  | other k => cases k <;> simp [applyBinary]
+
+example : applyBinary (.integer i64Max : Prim α) .add (.integer 1) = .error .overflow := by
+  simp [applyBinary, applyBinInteger, ofI64, checkedI64, inI64, i64Max, i64Min]
+
+/-! ### unary minus: the one reachable panic -/
+
+/-- exact characterisation of the panic of `apply_unary_op` -/
+theorem applyUnary_panic_iff (op : UnOp) (a : Prim α) :
+    applyUnary op a = .error .panic ↔ (op = .neg ∧ negatesMin a = true) := by
+  cases a with
+  | integer i => cases op <;> simp [applyUnary, negatesMin]
+  | pint u => cases op <;> simp [applyUnary, negatesMin]
+  | other k => cases k <;> cases op <;> simp [applyUnary, negatesMin]
+  | _ => cases op <;> simp [applyUnary, negatesMin]
+
+/-- `apply_unary_op` is panic-free away from `i64::MIN` (partial: the excluded operands do panic) -/
+theorem no_panic_applyUnary_partial (op : UnOp) (a : Prim α) (h : negatesMin a = false) :
+    applyUnary op a ≠ .error .panic := by
+  intro hp; rw [applyUnary_panic_iff] at hp; simp_all
+
+example : negatesMin (.integer 5 : Prim α) = false := by simp [negatesMin, i64Min]
+
+/-- the confirmed defect: `-(0 - 9223372036854775807 - 1)` -/
+theorem no_panic_applyUnary_counterexample : applyUnary .neg (.integer (-9223372036854775808) : Prim α) = .error .panic := by
+  simp [applyUnary, i64Min]
+/-- the same overflow reached from a `PositiveInteger` (2^63, e.g. `len(A)^7` for a 512-element array) -/
+theorem no_panic_applyUnary_counterexample_u64 : applyUnary .neg (.pint 9223372036854775808 : Prim α) = .error .panic := by
+  simp [applyUnary, u64AsI64, i64Min]
+
+/-- for values that fit `u64`, the only `PositiveInteger` whose negation panics is 2^63 -/
+theorem negatesMin_pint_iff (u : Nat) (hu : u ≤ u64Max) : negatesMin (.pint u : Prim α) = true ↔ u = 9223372036854775808 := by
+  simp only [negatesMin, u64AsI64, i64Min, u64Max] at *
+  split <;> simp <;> omega
+
+/-! ### the proposed repair (`fixes/C18-checked-neg.diff`) -/
+
+theorem no_panic_applyUnaryFixed (op : UnOp) (a : Prim α) : applyUnaryFixed op a ≠ .error .panic := by
+  cases a with
+  | integer i => cases op <;> simp [applyUnaryFixed, ofI64_ne_panic, applyUnary]
+  | pint u => cases op <;> simp [applyUnaryFixed, ofI64_ne_panic, applyUnary]
+  | other k => cases k <;> cases op <;> simp [applyUnaryFixed, applyUnary]
+  | _ => cases op <;> simp [applyUnaryFixed, applyUnary]
+
+/-- the repair changes nothing on operands whose negation fits (`Integer` above `i64::MIN`,
+`PositiveInteger` below 2^63) -/
+theorem applyUnaryFixed_agrees_integer (i : Int) (h1 : i64Min < i) (h2 : i ≤ i64Max) :
+    applyUnaryFixed .neg (.integer i : Prim α) = applyUnary .neg (.integer i) := by
+  have hne : i ≠ i64Min := by omega
+  have hin : inI64 (-i) = true := by rw [inI64_iff]; simp only [i64Min, i64Max] at h1 h2; omega
+  simp [applyUnaryFixed, applyUnary, ofI64, checkedI64, hin, hne]
+theorem applyUnaryFixed_agrees_pint (u : Nat) (h : u < 9223372036854775808) :
+    applyUnaryFixed .neg (.pint u : Prim α) = applyUnary .neg (.pint u) := by
+  have hc : u64AsI64 u = (u : Int) := by simp [u64AsI64, h]
+  have hne : (u : Int) ≠ i64Min := by simp only [i64Min]; omega
+  have hin : inI64 (-(u : Int)) = true := by rw [inI64_iff]; omega
+  simp [applyUnaryFixed, applyUnary, ofI64, checkedI64, hin, hne, hc]
+
+/-! ### checked arithmetic is exact, results stay in range -/
+
+/-- `Integer + Integer`: the mathematical sum when it fits `i64`, the `Overflow` error otherwise -/
+theorem integer_add_exact (a b : Int) :
+    applyBinary (.integer a : Prim α) .add (.integer b) = if inI64 (a + b) then .ok (.integer (a + b)) else .error .overflow := by
+  by_cases h : inI64 (a + b) = true <;> simp [applyBinary, applyBinInteger, ofI64, checkedI64, h]
+theorem integer_mul_exact (a b : Int) :
+    applyBinary (.integer a : Prim α) .mul (.integer b) = if inI64 (a * b) then .ok (.integer (a * b)) else .error .overflow := by
+  by_cases h : inI64 (a * b) = true <;> simp [applyBinary, applyBinInteger, ofI64, checkedI64, h]
+theorem pint_add_exact (a b : Nat) :
+    applyBinary (.pint a : Prim α) .add (.pint b) = if a + b ≤ u64Max then .ok (.pint (a + b)) else .error .overflow := by
+  have ht : ((a : Int) + (b : Int)).toNat = a + b := by omega
+  by_cases h : a + b ≤ u64Max
+  · have hin : inU64 ((a : Int) + (b : Int)) = true := by rw [inU64_iff]; simp only [u64Max] at h; omega
+    simp [applyBinary, applyBinPint, ofU64, checkedU64, hin, h, ht]
+  · have hin : inU64 ((a : Int) + (b : Int)) = false := by
+      cases hc : inU64 ((a : Int) + (b : Int)) with
+      | false => rfl
+      | true => rw [inU64_iff] at hc; simp only [u64Max] at h; omega
+    simp [applyBinary, applyBinPint, ofU64, checkedU64, hin, h]
+
+/-- every successful result is representable (`i64` / `u64` range) -/
+def OkWf (r : Res α) : Prop := ∀ v, r = .ok v → v.wf = true
+
+private theorem okWf_error (e : OpErr) : OkWf (.error e : Res α) := by intro v h; simp at h
+private theorem okWf_number (x : α) : OkWf (.ok (.number x) : Res α) := by intro v h; simp at h; subst h; rfl
+private theorem okWf_boolean (x : Bool) : OkWf (.ok (.boolean x) : Res α) := by intro v h; simp at h; subst h; rfl
+private theorem okWf_string (x : String) : OkWf (.ok (.string x) : Res α) := by intro v h; simp at h; subst h; rfl
+private theorem okWf_checkedDiv (a b : α) : OkWf (checkedDiv a b) := by
+  unfold checkedDiv; split
+  · exact okWf_error _
+  · exact okWf_number _
+private theorem okWf_floatArith (op : BinOp) (a b : α) : OkWf (floatArith op a b) := by
+  unfold floatArith; cases op <;> first | exact okWf_number _ | exact okWf_checkedDiv _ _ | exact okWf_error _
+private theorem okWf_ofI64 (r : Int) : OkWf (ofI64 (checkedI64 r) : Res α) := by
+  intro v h
+  unfold ofI64 checkedI64 at h
+  by_cases hr : inI64 r = true
+  · simp [hr] at h; subst h; simpa [Prim.wf] using hr
+  · simp [hr] at h
+private theorem okWf_ofU64 (r : Int) : OkWf (ofU64 (checkedU64 r) : Res α) := by
+  intro v h
+  unfold ofU64 checkedU64 at h
+  by_cases hr : inU64 r = true
+  · simp [hr] at h; subst h
+    rw [inU64_iff] at hr
+    rw [pint_wf_iff]; omega
+  · simp [hr] at h
+private theorem okWf_applyBinNumber (x : α) (op : BinOp) (b : Prim α) : OkWf (applyBinNumber x op b) := by
+  unfold applyBinNumber; cases b <;> first | exact okWf_floatArith _ _ _ | exact okWf_error _
+
+/-- closure: whatever the operands, a successful `apply_binary_op` returns a value inside the `i64` /
+`u64` range of its kind (no silent wrap of the RESULT; operands above `i64::MAX` are another matter,
+see `u64_operand_wrap_counterexample`). -/
+theorem applyBinary_wf (a b : Prim α) (op : BinOp) (v : Prim α) (h : applyBinary a op b = .ok v) : v.wf = true := by
+  suffices hs : OkWf (applyBinary a op b) from hs v h
+  cases a with
+  | number x => simpa [applyBinary] using okWf_applyBinNumber x op b
+  | boolean x =>
+    simp only [applyBinary, applyBinBoolean]
+    split
+    · cases b <;> cases op <;> first | exact okWf_boolean _ | exact okWf_error _
+    · exact okWf_applyBinNumber _ op b
+  | string s => simp only [applyBinary, applyBinString]; cases b <;> cases op <;> first | exact okWf_string _ | exact okWf_error _
+  | integer i =>
+    simp only [applyBinary, applyBinInteger]
+    cases b <;> cases op <;> first | exact okWf_ofI64 _ | exact okWf_floatArith _ _ _ | exact okWf_checkedDiv _ _ | exact okWf_error _
+  | pint u =>
+    simp only [applyBinary, applyBinPint]
+    cases b <;> cases op <;> first | exact okWf_ofI64 _ | exact okWf_ofU64 _ | exact okWf_floatArith _ _ _ | exact okWf_checkedDiv _ _ | exact okWf_error _
+  | other k => cases k <;> exact okWf_error _
+
+/-- … but a `PositiveInteger` OPERAND at or above 2^63 is reinterpreted (`as i64`) before the checked
+operation, so the returned integer can be mathematically wrong: 2^63 + 1 = -(2^63) + 1 (the harness
+reports these as `silent-integer-wrap`). -/
+theorem u64_operand_wrap_counterexample :
+    applyBinary (.pint 9223372036854775808 : Prim α) .add (.integer 1) = .ok (.integer (-9223372036854775807)) := by
+  simp [applyBinary, applyBinPint, u64AsI64, ofI64, checkedI64, inI64, i64Min, i64Max]
+
+/-- `as_primitive` on operator expressions never panics through a BINARY operator -/
+theorem eval_binary_never_panics (e : PExp α) : e.eval ≠ .error (.binOpError .panic) := by
+  induction e with
+  | lit p => simp [PExp.eval]
+  | un op e ih =>
+    simp only [PExp.eval]
+    split
+    · rename_i err h; intro hc; simp at hc; subst hc; exact ih h
+    · split <;> simp
+  | bin op a b iha ihb =>
+    simp only [PExp.eval]
+    split
+    · rename_i err h; intro hc; simp at hc; subst hc; exact iha h
+    · split
+      · rename_i err h; intro hc; simp at hc; subst hc; exact ihb h
+      · split
+        · simp
+        · rename_i c hc; intro h; simp at h; subst h; exact no_panic_applyBinary _ _ _ hc
+
+end generic
+
+/-! ### ranges: the allocation is the difference of two user numbers -/
+
+/-- `range_size`: the number of elements `NumericRange::call` materialises — bounded by nothing but
+the user's numbers (the hang / abort risk the harness exhibits with `0..100000000000`). -/
+theorem range_size (lo hi : Int) (inclusive : Bool) :
+    (rangeVals lo hi inclusive).length = if inclusive then (hi - lo + 1).toNat else (hi - lo).toNat := by
+  simp [rangeVals, intsFrom_length]
+
+example : (rangeVals 0 100000000000 false).length = 100000000000 := by rw [range_size]; rfl
+
+/-! ### numeric casts stay inside the target type (exact arithmetic with IEEE special values) -/
+section casts
+variable {K : Type} [Field K] [LinearOrder K] [IsStrictOrderedRing K] [FloorRing K]
+
+/-- `as_integer_cast` (`*n as i64`, saturating) returns an `i64` -/
+theorem asIntegerCast_in_range (p : Prim (Ext K)) (hwf : p.wf = true) (i : Int) (h : asIntegerCast p = .ok i) : inI64 i = true := by
+  rw [inI64_iff]
+  cases p with
+  | integer n => simp [asIntegerCast] at h; subst h; simpa [Prim.wf, inI64_iff] using hwf
+  | pint n =>
+    simp [asIntegerCast] at h; subst h
+    rw [pint_wf_iff] at hwf
+    simp only [u64AsI64]; split <;> omega
+  | boolean b => simp [asIntegerCast, boolI] at h; subst h; cases b <;> simp
+  | number x =>
+    simp only [asIntegerCast] at h
+    split at h
+    · simp at h
+    · simp at h; subst h
+      exact toIntSat_range _ _ (by omega) (by omega) x
+  | string s => simp [asIntegerCast] at h
+  | other k => simp [asIntegerCast] at h
+
+/-- `as_usize_cast` (`*n as usize`, saturating) returns a `u64` -/
+theorem asUsizeCast_in_range (p : Prim (Ext K)) (hwf : p.wf = true) (n : Nat) (h : asUsizeCast p = .ok n) : n ≤ u64Max := by
+  cases p with
+  | pint m => simp [asUsizeCast] at h; subst h; rw [pint_wf_iff] at hwf; simpa [u64Max] using hwf
+  | integer m =>
+    simp only [asUsizeCast] at h
+    split at h
+    · simp at h
+    · simp at h; subst h
+      have := (inI64_iff m).mp (by simpa [Prim.wf] using hwf)
+      simp only [u64Max]; omega
+  | boolean b => simp [asUsizeCast] at h; subst h; cases b <;> simp [u64Max]
+  | number x =>
+    simp only [asUsizeCast] at h
+    split at h
+    · simp at h
+    · simp at h; subst h
+      have := toIntSat_range (K := K) 0 18446744073709551615 (by omega) (by omega) x
+      simp only [ToU64.toU64, u64Max]; omega
+  | string s => simp [asUsizeCast] at h
+  | other k => simp [asUsizeCast] at h
+
+example : asIntegerCast (.number (.pinf) : Prim (Ext K)) = .error .wrongArgument := by
+  simp [asIntegerCast, floatNe, floatEq, fract, Arith.lt, Arith.abs, Arith.sub, Arith.ofInt, Arith.floor, Arith.ceil,
+    Ext.lt, Ext.sub, Ext.add, Ext.neg, Ext.abs, nearZero, Arith.div, Ext.div]
+end casts
+
 end Rooc.Props.C18
